@@ -105,7 +105,11 @@ pub fn worker(args: &[String]) -> i32 {
         out.counters.merge(&rep.counters);
         out.sim_time_ns += rep.sim_time_ns;
         out.steps += rep.steps;
-        if want_log {
+        // the unsimulated HTTP smoke runs of C19 use real sockets and real time: their probe counters
+        // (replies that did not come) are not a function of the seed, so they take no part in the
+        // determinism self-test
+        let unsimulated = scenario.get("http").and_then(|h| h.as_bool()).unwrap_or(false);
+        if want_log && !unsimulated {
             log.push(json!({"i": i, "seed": seed, "sig": rep.signature, "steps": rep.steps, "t": rep.sim_time_ns,
                 "viol": rep.violations.iter().map(|v| v.class.clone()).collect::<Vec<_>>(),
                 "counters": rep.counters}));
